@@ -224,7 +224,9 @@ class Family:
                   [{'k': 'Timeout', 'e': 'PeerTimeout'}, {'k': 'Timeout', 'e': 'PeerTimeout'}], [R('2', 0, b=1, e=0)],
                   [R('D', 0, pd='Y', ost='ok'), R('D', 0, pd='Y', ost='ok'), R('D', 0)],
                   [{'k': 'Disconnected'}, {'k': 'Connect'}, R('A', 0)], [R('5', 0)], [R('A', 0)], [R('A', 0, rsf='Y')],
-                  [{'k': 'Disconnected'}, {'k': 'Connect'}, R('A', 0, rsf='Y')], [{'k': 'Timeout', 'e': 'LogoutTimeout'}, snd, {'k': 'Flush'}]]
+                  [{'k': 'Disconnected'}, {'k': 'Connect'}, R('A', 0, rsf='Y')],
+                  [R('A', 0, rsf='Y'), R('1', 0, trid='T1')], [R('A', 0), snd, {'k': 'Flush'}], [R('A', -1, rsf='Y')],
+                  [R('A', -1, rsf='Y'), R('0', 0)], [{'k': 'Timeout', 'e': 'LogoutTimeout'}, snd, {'k': 'Flush'}]]
         seen = set()
         scripts = []
         for rows, d in divs:
